@@ -163,7 +163,7 @@ func checkC15(c *core.Ctx, l *core.Ledger) {
 			if lk, isLk := in.(*ssa.Lookup); isLk {
 				n++
 				if k, isC := lk.Index.(*ssa.Const); isC && k.Value != nil && strings.Trim(k.Value.ExactString(), `"`) == a.key {
-					if fld, _ := core.LoadedField(lk.X); fld != nil && fld.Name() == "Annotations" {
+					if fld, _ := core.LoadedField(lk.X); fld != nil && core.FieldName(fld) == "Annotations" {
 						ok = true
 					}
 				}
